@@ -234,7 +234,14 @@ async fn try_forward_api_call(
         Some(WbFunction::Import(json, tx)) => {
             let (tx_int, rx_int) = oneshot::channel();
             process_api_call(worterbuch, WbFunction::Import(json, tx_int)).await;
-            let imported_values = rx_int.await??;
+            let imported_values = match rx_int.await? {
+                Ok(it) => it,
+                Err(e) => {
+                    // a request that fails is answered, it does not end the leader
+                    tx.send(Err(e)).ok();
+                    return Ok(ControlFlow::Continue(()));
+                }
+            };
 
             for (key, (value, changed)) in &imported_values {
                 if *changed {
